@@ -1374,16 +1374,27 @@ theorem getter_wrong_kind_error (f : StateFeature α) :
     simp [StateFeature.getDistanceUnit, StateFeature.getTimeUnit, StateFeature.getEnergyUnit,
       StateFeature.getCustomFeatureFormat] <;> (intros; simp_all)
 
-/-- `==` on features is an equivalence that only sees the kind (and a custom feature's two names) -/
+/-- a custom feature of another format is another kind (since /repo fix ceb1497: `PartialEq` compared
+type and unit only), so by `extend_refuses_kind_change` an override that turns the floating-point
+`battery_state` into an integer or boolean feature of the same type and unit is refused -/
+theorem custom_format_change_is_kind_change (t u : String) (x : α) (i : Int) (n : Nat) (b : Bool) :
+    (StateFeature.custom t u (.floatingPoint x)).eqv (.custom t u (.signedInteger i)) = false
+      ∧ (StateFeature.custom t u (.floatingPoint x)).eqv (.custom t u (.unsignedInteger n)) = false
+      ∧ (StateFeature.custom t u (.floatingPoint x)).eqv (.custom t u (.boolean b)) = false
+      ∧ (StateFeature.custom t u (.floatingPoint x)).eqv (.custom t u (.floatingPoint x)) = true := by
+  simp [StateFeature.eqv, CustomFeatureFormat.name]
+
+/-- `==` on features is an equivalence that only sees the kind (and a custom feature's two names
+and the name of its format) -/
 theorem feature_eq_is_equivalence (f g h : StateFeature α) :
     f.eqv f = true ∧ (f.eqv g = g.eqv f) ∧ (f.eqv g = true → g.eqv h = true → f.eqv h = true) := by
   refine ⟨?_, ?_, ?_⟩
   · cases f <;> simp [StateFeature.eqv]
   · cases f <;> cases g <;> simp only [StateFeature.eqv]
-    rename_i t1 u1 _ t2 u2 _
-    rw [BEq.comm (a := t1), BEq.comm (a := u1)]
+    rename_i t1 u1 f1 t2 u2 f2
+    rw [BEq.comm (a := t1), BEq.comm (a := u1), BEq.comm (a := f1.name)]
   · cases f <;> cases g <;> cases h <;> simp [StateFeature.eqv]
-    rintro rfl rfl rfl rfl; exact ⟨rfl, rfl⟩
+    rintro rfl rfl e1 rfl rfl e2; exact ⟨⟨rfl, rfl⟩, e1.trans e2⟩
 
 section codec
 variable [Lit α] [IntCodec α] [LT α] [DecidableLT α] [BEq α]
